@@ -1495,7 +1495,7 @@ def check_C09(chk):
     rng = random.Random(chk.seed * 31 + 9)
     quick = chk.tier == "quick"
     scens = fam_regress()
-    cbs = [9, 10, 12, 14, 16] if quick else list(range(9, 22))
+    cbs = [9, 10, 12, 14, 16, 20 + chk.seed % 2] if quick else list(range(9, 22))
     ros = [0, 2, 4, 6] if quick else list(range(0, 7))
     k = 0
     # (a) independently built images, opened with default and custom parameters
